@@ -145,7 +145,7 @@ func extractIdlPackage(out string) {
 		l.strList("registerTo"+strings.TrimPrefix(rc[0], "*")+"Flow",
 			flowTokens(mustFunc(ft, "meta/signature/type.go", rc[0], "RegisterTo"), rc[1], []string{"Members", "Name", "value", "key"}, calls))
 	}
-	for _, fn := range []string{"generateMethod", "generateProperty", "generateSignal", "generateStructures", "GenerateIDL"} {
+	for _, fn := range []string{"generateMethod", "generateProperty", "generateSignal", "generateStructure", "generateStructures", "GenerateIDL"} {
 		l.strList(lowerFirst(fn)+"Flow", flowTokens(mustFunc(fi, "meta/idl/idl.go", "", fn), "set", []string{"Types", "Names"}, calls))
 	}
 	fnm := load("meta/signature/name.go")
